@@ -25,12 +25,16 @@ def pyval(p, v):
 
 
 def kwargs_of(case):
+    """Keyword arguments in one of two orders (a dict keeps insertion order, and which spelling the caller wrote first must not matter)."""
     kw = {}
+    short_first = (len(case["ext"]) + len(case["fpar"]) + sum(len(v) for v in case["long"].values()) + len(case["inp"])) % 2 == 1
     for p in ("sr", "sw", "ch"):
-        if case["long"][p] != "absent":
-            kw[LONG[p]] = pyval(p, case["long"][p])
-        if case["short"][p] != "absent":
-            kw[p] = pyval(p, case["short"][p])
+        pairs = [(LONG[p], case["long"][p]), (p, case["short"][p])]
+        if short_first:
+            pairs.reverse()
+        for name, v in pairs:
+            if v != "absent":
+                kw[name] = pyval(p, v)
     return kw
 
 
